@@ -250,8 +250,8 @@ func (v *cgView) callers(f *ssa.Function) []ssa.CallInstruction {
 			if e.Site == nil {
 				continue
 			}
-			if e.Caller.Func.Synthetic != "" {
-				// promoted-method and bound-method wrappers are transparent
+			if e.Caller.Func.Synthetic != "" || flattenable[e.Caller.Func] {
+				// promoted-method and bound-method wrappers, and new helpers, are transparent
 				walk(e.Caller.Func)
 				continue
 			}
